@@ -1134,11 +1134,14 @@ def c15_combine(R):
     upd = [c for c in _calls(cb) if isinstance(c.func, ast.Attribute) and c.func.attr == "update" and "_models" in ast.unparse(c.func.value)]
     R.need(len(upd) == 1, "ModelCacheMixin.combine: model carry-over not found")
     Fc = util.Frags(cb)
-    Fc.has("vars_count = len(self.variables) + sum((len(s.variables) for s in others))")
-    Fc.has("all_vars = self.variables.union(*[s.variables for s in others])")
+    disjoint = Fc.find(
+        "vars_count = len(self.variables) + sum((len(s.variables) for s in others))\n"
+        "all_vars = self.variables.union(*[s.variables for s in others])\n"
+        "if vars_count != len(all_vars):\n    return combined"
+    )
     facts = [(Fc.canon(t), pol) for t, pol in guards.guards_of(upd[0])]
     R.check(
-        ("vars_count != len(all_vars)", False) in facts,
+        disjoint is not None and any(pol is False and t is getattr(disjoint, "test", None) for t, pol in guards.guards_of(upd[0])),
         mm,
         upd[0],
         "models are combined only when the solvers' variable sets are disjoint",
@@ -1153,7 +1156,7 @@ def c15_combine(R):
         "model carry-over no longer requires every side to have models",
     )
     R.check(
-        Fc.code("vars_count") in util.local_names(cb) and Fc.has("vars_count = len(self.variables) + sum((len(s.variables) for s in others))"),
+        disjoint is not None,
         mm,
         cb,
         "disjointness counts self's and every other's variables",
